@@ -19,6 +19,8 @@ claimed = {
              note="The writer is assumed to return; known finding lz.Decoder.WriteBlock#dec.step.loop0 is suppressed by name only.", tech="contract-based deductive verification: WP/VC generation over the typed Go AST (lzvc), SMT discharge (z3/cvc5)", ref="DESIGN.md §4 C06"),
  "C18": dict(cat="proof", text="With a ghost model of the writer (g_Mw, g_Mwn = bytes accepted so far) in the assumed io.Writer contract, WriteTo is proved to hand over exactly Data[R:], to advance R by exactly the accepted count also on error, and every Decoder method is proved to keep accepted-count minus absolute-read-position constant and the accepted prefix immutable; together with decKept this gives prefix-exactly-once.",
              note="io.Writer obeys 0<=n<=len(p) and does not modify p; the step from these clauses to the property's wording (retry of the remainder) is a meta-argument over the proved k/l/n clauses of C17.", tech="contract-based deductive verification: WP/VC generation over the typed Go AST (lzvc), SMT discharge (z3/cvc5)", ref="DESIGN.md §4 C18"),
+ "C13": dict(cat="other", text="For HP, BHP, DHP, BDHP and BUP the ghost-client lemmas lemmaReset<P> (real Go functions calling s.Reset(data) on the concrete parser type, verified against the contract of the method that really runs, promoted methods included) prove that after a successful Reset every field a later Parse reads is exactly what a new parser has after Reset(data): W == Off == 0, Data == data byte for byte, every hash-table / bucket / index entry zero, configuration and invariant unchanged; init proves the same table state for a new parser. Reset is accepted iff len(data) <= BufferSize. DHP/BDHP kept their tables across Reset (genuine defect, fixed). NOT under contract: GSAP, OSAP; 'equal state implies equal blocks' and the goroutine-schedule clause rest on a frame argument (every write of the verified functions is inside their modifies clause, no package-level mutable state) that is not mechanised here.",
+             note="State equality is up to array identity and capacity; margin bytes beyond len(Data) are not compared; engine semantics; solver soundness.", tech="contract-based deductive verification: WP/VC generation over the typed Go AST (lzvc), ghost-client lemma functions, SMT discharge (z3/cvc5)", ref="DESIGN.md §4 C13"),
  "C01": dict(cat="other", text="For HP, BHP, DHP, BDHP and BUP, Parse is verified against a contract with a ghost certificate of the block: chain maps (g_ga: buffer position, g_gl: literal index of every sequence), per-literal positions g_lp with Literals[x] == Data[g_lp[x]] for every literal byte and g_lp[g_gl[t]+u] == g_ga[t]+u for every sequence, trailing literals included; Data, Off and the configuration are unchanged and the buffer operations (Write, ReadFrom, Reset, Shrink) keep the buffer a faithful window of the stream (C15). NOT yet under contract: the match clause (bytes of a match equal the bytes Offset back), GSAP and OSAP; the step from the certificate to 'a plain expander reproduces the input' is bridge lemma B1 (not mechanised).",
              note="Assumes caller's blk.Literals does not alias the parser buffer (and the bucket index array); reflect-based config helpers are outside; engine semantics; solver soundness.", tech="contract-based deductive verification: WP/VC generation over the typed Go AST (lzvc), SMT discharge (z3/cvc5)", ref="DESIGN.md §4 C01"),
  "C02": dict(cat="other", text="For HP, BHP, DHP, BDHP and BUP every emitted sequence is proved to satisfy 1 <= Offset <= WindowSize, Offset <= position of the match in the buffer (hence <= stream bytes before it), MatchLen >= min(3, InputLen), Aux == 0 and g_gl[t]+LitLen <= len(Literals) (LitLen never claims more literals than the block carries), for all inputs, accepted configurations and buffer states satisfying the parser invariant. GSAP and OSAP are not yet under contract.",
